@@ -50,6 +50,13 @@ Section C02.
     Qed.
   End Reserialisation.
 
+  (* the text-level functions: SignJSON parses, signs the value and prints canonically, so that
+     with the two theorems above every text equivalent to the value of its output verifies *)
+  Theorem sign_json_text : forall name kid k t st,
+    sign_json key sign name kid k t = Some st <->
+    exists v o, parse_json t = Some v /\ sign_value name kid k v = Some o /\ st = canon_print o.
+  Proof. intros. apply sign_json_unfold. Qed.
+
   (* SignJSON refuses an object only when its signatures member is not a signature map *)
   Theorem sign_succeeds_iff_signatures_readable : forall name kid k m,
     sign_value name kid k (JObj m) = None <-> sigs_of m = None.
@@ -238,6 +245,7 @@ Proof. vm_compute. split; [reflexivity|discriminate]. Qed.
 Print Assumptions sign_then_verify.
 Print Assumptions verdict_invariant_under_reserialisation.
 Print Assumptions sign_then_verify_reserialised.
+Print Assumptions sign_json_text.
 Print Assumptions sign_succeeds_iff_signatures_readable.
 Print Assumptions sign_then_verify_after_more_signers.
 Print Assumptions sign_then_verify_after_unsigned_change.
